@@ -226,11 +226,6 @@ var c07RawPanics = map[string]string{
 var c07Asserts = map[string]string{
 	"goose.Ctx.arrayType|*go/types.Info.TypeOf(ctx.info,e).(*Array)":          "go/types: the type of an *ast.ArrayType expression with a length is *types.Array (the branch tested e.Len != nil)",
 	"goose.Ctx.mapType|*go/types.Info.TypeOf(ctx.info,e).Underlying().(*Map)": "go/types: the type of an *ast.MapType expression is a map type",
-	"goose.Ctx.constDecl|d.Specs[(phi:rangeindex + 1)].(*ValueSpec)":          "go/ast: GenDecl.Tok == CONST implies every spec is *ValueSpec (caller dispatched on Tok)",
-	"goose.Ctx.globalVarDecl|d.Specs[(phi:rangeindex + 1)].(*ValueSpec)":      "go/ast: GenDecl.Tok == VAR implies every spec is *ValueSpec",
-	"goose.Ctx.imports|d[(phi:rangeindex + 1)].(*ImportSpec)":                 "go/ast: GenDecl.Tok == IMPORT implies every spec is *ImportSpec",
-	"goose.Ctx.maybeDecls|d.(*GenDecl)#0.Specs[0].(*TypeSpec)":                "go/ast: GenDecl.Tok == TYPE implies every spec is *TypeSpec",
-	"goose.Ctx.varDeclStmt|s.Decl.(*GenDecl)#0.Specs[0].(*ValueSpec)":         "go/ast: GenDecl.Tok == VAR (tested above) implies *ValueSpec",
 	"goose.Ctx.coqRecurFunc|ctx.info.Uses[e]#0.(*Func)":                       "callers pass the identifier of a function (identExpr tested *types.Func) or of a method selected on a typed receiver",
 	"goose.Ctx.packageMethod|f.X.(*Ident)":                                    "getType failed for f.X, so f.X denotes a package; a package qualifier is an identifier",
 }
@@ -476,6 +471,8 @@ func c07Audit(p *Prog, r *Report, prefixed *ssa.Function) {
 					guard := sk(x.X) + ".(" + types.TypeString(x.AssertedType, qualNone) + ")#1 == true"
 					if rs[guard] {
 						r.OK("R07b", "assert "+key, instrPos(in), "dominated by a successful comma-ok assertion")
+					} else if why := p.specAssertInvariant(f, x); why != "" {
+						r.OK("R07b", "assert "+key, instrPos(in), why)
 					} else if why, ok := auditFind(c07Asserts, key); ok {
 						r.OK("R07b", "assert "+key, instrPos(in), "audited: "+why)
 					} else {
@@ -1136,4 +1133,112 @@ func c07BindingArity(p *Prog, r *Report) {
 	if n == 0 {
 		r.Unknown("R07b", "Binding.Names constructions", token.NoPos, "no construction of coq.Binding with names found in the translator")
 	}
+}
+
+// specsToks: the GenDecl.Tok constants under which the slice value is some D.Specs — read off
+// the facts where D.Specs is loaded, or, for a parameter, at every call site (depth 3).
+func (p *Prog) specsToks(fn *ssa.Function, slice ssa.Value, at ssa.Instruction, depth int) (map[int64]bool, bool) {
+	if depth > 3 {
+		return nil, false
+	}
+	if o, fld, ok := fieldOf(slice); ok && o.Obj().Name() == "GenDecl" && o.Obj().Pkg().Path() == "go/ast" && fld == "Specs" {
+		k := sk(slice)
+		if !strings.HasSuffix(k, ".Specs") {
+			return nil, false
+		}
+		tokKey := strings.TrimSuffix(k, ".Specs") + ".Tok"
+		rs := p.RelsAt(p.Rels(fn), at)
+		for f := range p.entryRels(fn) {
+			rs[f] = true
+		}
+		out := map[int64]bool{}
+		for f := range rs {
+			i := topLevelIndex(f, " == ")
+			if i < 0 {
+				continue
+			}
+			a, b := f[:i], f[i+4:]
+			var n int64
+			if b == tokKey {
+				if _, err := fmt.Sscan(a, &n); err == nil && fmt.Sprint(n) == a {
+					out[n] = true
+				}
+			}
+			if a == tokKey {
+				if _, err := fmt.Sscan(b, &n); err == nil && fmt.Sprint(n) == b {
+					out[n] = true
+				}
+			}
+		}
+		return out, len(out) == 1
+	}
+	pa, ok := slice.(*ssa.Parameter)
+	if !ok {
+		return nil, false
+	}
+	idx := -1
+	for i, q := range fn.Params {
+		if q == pa {
+			idx = i
+		}
+	}
+	out := map[int64]bool{}
+	n := 0
+	good := idx >= 0
+	for _, g := range p.srcFuncs {
+		p.instrs(g, func(b *ssa.BasicBlock, i int, in ssa.Instruction) {
+			c, ok := in.(ssa.CallInstruction)
+			if !ok || c.Common().StaticCallee() != fn || idx >= len(c.Common().Args) {
+				return
+			}
+			n++
+			ts, ok2 := p.specsToks(g, c.Common().Args[idx], in, depth+1)
+			if !ok2 {
+				good = false
+			}
+			for t := range ts {
+				out[t] = true
+			}
+		})
+	}
+	return out, good && n > 0 && len(out) > 0
+}
+
+// specAssertInvariant: go/ast fixes the dynamic type of GenDecl.Specs elements by GenDecl.Tok.
+func (p *Prog) specAssertInvariant(fn *ssa.Function, ta *ssa.TypeAssert) string {
+	ld, ok := ta.X.(*ssa.UnOp)
+	if !ok || ld.Op != token.MUL {
+		return ""
+	}
+	ia, ok := ld.X.(*ssa.IndexAddr)
+	if !ok {
+		return ""
+	}
+	toks, ok := p.specsToks(fn, ia.X, ta, 0)
+	if !ok {
+		return ""
+	}
+	allowed := map[string][]token.Token{
+		"*go/ast.ValueSpec":  {token.CONST, token.VAR},
+		"*go/ast.TypeSpec":   {token.TYPE},
+		"*go/ast.ImportSpec": {token.IMPORT},
+	}[types.TypeString(ta.AssertedType, nil)]
+	if allowed == nil {
+		return ""
+	}
+	var names []string
+	for t := range toks {
+		in := false
+		for _, a := range allowed {
+			if int64(a) == t {
+				in = true
+			}
+		}
+		if !in {
+			return ""
+		}
+		names = append(names, token.Token(t).String())
+	}
+	sort.Strings(names)
+	return fmt.Sprintf("go/ast: the slice is the Specs of a GenDecl whose Tok is %s (facts here and at every call site), and such a declaration holds only %s", strings.Join(names, "/"), types.TypeString(ta.AssertedType, qualNone))
 }
